@@ -199,7 +199,14 @@ uint64_t
 clock_tic(struct clock* c)
 {
     /* called once per streamer iteration: the environment stops the camera within ITER iterations */
-    if (c == &cam->streamer.throttle) { ++iters_; if (iters_ >= ITER) VASSUME(!cam->streamer.is_running); }
+    if (c == &cam->streamer.throttle) {
+        /* the streamer has just passed its trigger gate and released the lock, no boundary since:
+         * the trigger latch must have been consumed by the gate, whether triggering is enabled or
+         * not (a trigger fired while triggering is disabled must not satisfy a later gate) */
+        VASSERT(cam->software_trigger.triggered == 0, "C18: the trigger latch survived a pass through the streamer's gate (a stale trigger can release a frame later without a new trigger)");
+        ++iters_;
+        if (iters_ >= ITER) VASSUME(!cam->streamer.is_running);
+    }
     env_step();
     return 0;
 }
